@@ -33,13 +33,11 @@ class ExceptionResponse:
         return cls(state_error, service_error, invocation_counter_data)
 
     def to_bytes(self):
-        if not self.invocation_counter_data:
-            return bytes([self.TAG, self.state_error, self.service_error])
-        return bytes(
-            [
-                self.TAG,
-                self.state_error,
-                self.service_error,
-                self.invocation_counter_data,
-            ]
-        )
+        out = bytes([self.TAG, self.state_error, self.service_error])
+        if (
+            self.service_error
+            == enumerations.ServiceException.INVOCATION_COUNTER_ERROR
+        ):
+            # invocation-counter-error carries the counter as an Unsigned32
+            out += (self.invocation_counter_data or 0).to_bytes(4, "big")
+        return out
